@@ -31,6 +31,11 @@ MUTS = {
                            "    buffer_append_str2(tb, CONST_STR_LEN(\"-\"), /*(strip surrounding '\"')*/\n                           etag->ptr+1, 1);\n    return tb;", ["C19"]),
  "auth-cache-age": ("src/mod_auth.c", "    if (cur_ts - ae->ctime > max_age)\n        keys[(*ndx)++] = t->key;", "    if (cur_ts - ae->ctime > max_age * 100)\n        keys[(*ndx)++] = t->key;", ["C16"]),
  "kv-url-query": ("src/keyvalue.c", "                    burl_append(b, BUF_PTR_LEN(burl->query), flags);\n                p+=5;", "                    burl_append(b, BUF_PTR_LEN(burl->path), flags);\n                p+=5;", ["C20"]),
+ "dup-host-ignored": ("src/request.c", "        /* else parse duplicate for match or error */\n        __attribute_fallthrough__\n      case HTTP_HEADER_IF_MODIFIED_SINCE:",
+                      "        return 0;\n      case HTTP_HEADER_IF_MODIFIED_SINCE:", ["C01"]),
+ "hpack-evict": ("src/ls-hpack/lshpack.c", "    while (dec->hpd_cur_capacity > dec->hpd_cur_max_capacity)\n        hdec_drop_oldest_entry(dec);\n}", "    while (dec->hpd_cur_capacity > dec->hpd_cur_max_capacity + 32)\n        hdec_drop_oldest_entry(dec);\n}", ["C07"]),
+ "dav-delete-subdir": ("src/mod_webdav.c", "            multi_status |= webdav_delete_dir(pconf, dst, r, flags);\n        }\n        else {\n            int status =\n              webdav_unlinkat(pconf, dst, dfd, de->d_name);",
+                       "            multi_status |= 0;\n        }\n        else {\n            int status =\n              webdav_unlinkat(pconf, dst, dfd, de->d_name);", ["C18"]),
  "else-link": ("src/configparser.y", "    C->prev = B;\n    B->next = C;\n    A = C;", "    C->prev = B;\n    A = C;", ["C14"]),
 }
 
